@@ -302,7 +302,7 @@ impl Prop for C01 {
         let mut tail = true;
         for op in ops {
             let toks: Vec<&str> = op.split_whitespace().collect();
-            let out = if toks.first().map(|t| t.starts_with('n')).unwrap_or(false) {
+            let out = if toks.first().map(|t| t.starts_with('n') || *t == "tag").unwrap_or(false) {
                 let c = cl.get_or_insert_with(|| crate::cluster::Cluster::new("c01n"));
                 c.exec(&toks).unwrap_or_else(|| "bad-op".into())
             } else {
